@@ -66,6 +66,70 @@ def f32_exact(x: float) -> bool:
         return False
 
 
+# ---------------------------------------------------------------------------------- value sets of every iterable kind
+# An in / not_in value set need not be a list: the library iterates whatever it is given -- possibly more than once
+# (expression build, then file pruning).  The argument tag of a condition therefore ranges over the ITERABLE KINDS below;
+# "list" / "tuple" are the sequences the documentation shows.  A filter dict holding a one-shot iterator can be used for
+# ONE call only and cannot be pickled: `filter_py` returns a picklable recipe (`ValueSet`) in its place and `realise`
+# builds a fresh dict -- fresh iterators -- for every single library call.
+REITERABLE_KINDS = ["set", "frozenset", "keys", "values", "range", "deque"]    # iterate any number of times
+ONE_SHOT_KINDS = ["iter", "gen", "map"]                                        # the second iteration is EMPTY
+MAPPING_KINDS = ["dict"]                                                       # iterating yields the KEYS: not a value set
+ITERABLE_KINDS = REITERABLE_KINDS + ONE_SHOT_KINDS + MAPPING_KINDS
+SEQUENCE_KINDS = ["list", "tuple"]
+VALUE_SET_KINDS = SEQUENCE_KINDS + ITERABLE_KINDS
+
+
+def _is_range(vals: List[Any]) -> bool:
+    return all(isinstance(v, int) and not isinstance(v, bool) for v in vals) and vals == list(range(vals[0], vals[0] + len(vals))) if vals else True
+
+
+def fit_value_set(kind: str, vals: List[Any]) -> Tuple[str, List[Any]]:
+    """(kind, values) such that an object of this kind ITERATES exactly `values` (up to order for the hashed kinds): the
+    hashed kinds drop duplicates (1 == True == 1.0 are one element), a range holds consecutive ints only."""
+    vals = list(vals)
+    if kind in ("set", "frozenset", "keys", "dict"):
+        return kind, list(dict.fromkeys(vals))
+    if kind == "range" and not _is_range(vals):
+        return "iter", vals
+    return kind, vals
+
+
+class ValueSet:
+    """Picklable recipe of an iterable argument; `make()` returns a FRESH object of the kind."""
+
+    def __init__(self, kind: str, values: List[Any]) -> None:
+        self.kind, self.values = kind, list(values)
+
+    def make(self) -> Any:
+        import collections
+        k, v = self.kind, list(self.values)
+        if k == "set":
+            return set(v)
+        if k == "frozenset":
+            return frozenset(v)
+        if k == "dict":
+            return dict.fromkeys(v, "x")
+        if k == "keys":
+            return dict.fromkeys(v, "x").keys()
+        if k == "values":
+            return dict(enumerate(v)).values()
+        if k == "range":
+            return range(v[0], v[0] + len(v)) if v else range(0)
+        if k == "deque":
+            return collections.deque(v)
+        if k == "iter":
+            return iter(v)
+        if k == "gen":
+            return (x for x in v)
+        if k == "map":
+            return map(lambda x: x, v)
+        raise ValueError(k)
+
+    def __repr__(self) -> str:
+        return f"<{self.kind} of {self.values!r}>"
+
+
 def arg_py(arg: Tuple[str, Any]) -> Any:
     tag, v = arg
     if tag == "val":
@@ -74,7 +138,24 @@ def arg_py(arg: Tuple[str, Any]) -> Any:
         return list(v)
     if tag == "tuple":
         return tuple(v)
+    if tag in ITERABLE_KINDS:
+        return ValueSet(tag, v)
     raise ValueError(tag)
+
+
+def _real(x: Any) -> Any:
+    if isinstance(x, ValueSet):
+        return x.make()
+    if isinstance(x, tuple):
+        return tuple(_real(i) for i in x)
+    return x
+
+
+def realise(fpy: Optional[Dict[str, Any]]) -> Optional[Dict[str, Any]]:
+    """The dict handed to ONE library call: every recipe replaced by a fresh object of its kind."""
+    if fpy is None:
+        return None
+    return {c: _real(cd) for c, cd in fpy.items()}
 
 
 def cond_py(cond: Tuple) -> Any:
@@ -119,6 +200,8 @@ def atoms(flt: List[Tuple[str, Tuple]]) -> List[Tuple[str, str, Any]]:
             # characters 'a', 'b' would be a reinterpretation of the filter
             if arg[0] == "val":
                 raise Malformed("between needs (lo, hi), not a " + (type(arg[1]).__name__))
+            if arg[0] in ITERABLE_KINDS:
+                raise Unjudged("between with an iterable that is not a (lo, hi) sequence")
             if len(arg[1]) != 2:
                 raise Malformed("between needs exactly (lo, hi)")
             out.append((col, "GE", arg[1][0]))
@@ -139,6 +222,11 @@ def atoms(flt: List[Tuple[str, Tuple]]) -> List[Tuple[str, str, Any]]:
             # of its characters / byte values
             if arg[0] == "val":
                 raise Malformed("in / not_in need a list of values, not a " + (type(arg[1]).__name__))
+            # ... a MAPPING is not a set of values either (iterating it yields its keys: the filter would be reinterpreted);
+            # every other iterable -- set, frozenset, dict view, range, deque, iterator, generator, map -- IS one: the
+            # values it yields, whatever the number of times the library needs to look at them
+            if arg[0] in MAPPING_KINDS:
+                raise Malformed("in / not_in need a list of values, not a mapping")
             out.append((col, op, list(arg[1])))
         else:
             if arg[0] != "val":
